@@ -140,11 +140,20 @@ impl ModelChecker {
 
         // sort starting states by increasing depth to produce shorter error traces
         states.sort_by_key(|x| x.depth);
+        // McSystem is always rolled back to the state before MC run
+        let initial_state = self.system.get_state();
         for state in states {
             self.system.set_state(state);
-            let stats = self.run_impl(&mut strategy, &preliminary_callback)?;
-            total_stats.combine(stats);
+            let res = self.run_impl(&mut strategy, &preliminary_callback);
+            match res {
+                Ok(stats) => total_stats.combine(stats),
+                Err(err) => {
+                    self.system.set_state(initial_state);
+                    return Err(err);
+                }
+            }
         }
+        self.system.set_state(initial_state);
         Ok(total_stats)
     }
 }
